@@ -37,12 +37,13 @@ def obligations(tier):
     for (n, k) in ((3, 3), (4, 3)):
         obs.append(Ob(name='c05_divmod_eq_%d_%d_w16' % (n, k), harness='harness/C05/zz.c', entry='h_divmod_eq', word=16, defs=['NMAX=3', 'V64', 'FIX_N=%d' % n, 'FIX_K=%d' % k],
                       srcs=[f for f in ZZ if not f.endswith('u64.c')], unwind=14, timeout=900, checks=NOSO, backend=['cadical', 'kissat'], mem_gb=10,
-                      funcs=['zzDiv', 'zzMod'], bound='%d-word dividend, %d-word divisor (16-bit words), every value with non-zero top divisor word: zzMod == remainder of zzDiv < divisor' % (n, k)))
+                      funcs=['zzDiv', 'zzMod'], tiers=('thorough',), bound='%d-word dividend, %d-word divisor (16-bit words), every value with non-zero top divisor word: zzMod == remainder of zzDiv < divisor' % (n, k)))
     PP = ['src/math/pp/pp_mul.c', 'src/math/pp/pp_mod.c', 'src/math/pp/pp_gcd.c', 'src/math/pp/pp_etc.c', 'src/math/pp/pp_red.c', 'src/math/ww.c', 'src/core/mem.c', 'src/core/util.c', 'src/core/word.c', 'src/core/u16.c', 'src/core/u32.c']
     for e, fn, shapes in (('h_mul', ['ppMul', 'ppSqr'], ((1, 1), (2, 1), (2, 2))), ('h_mod', ['ppMod'], ((1, 1), (2, 1), (2, 2), (4, 2))), ('h_gcd', ['ppGCD', 'ppExGCD'], ((1, 1), (2, 2), (2, 1)))):
         for (n, m) in shapes:
             obs.append(Ob(name='c05_pp_%s_%d_%d_w16' % (e[2:], n, m), harness='harness/C05/pp.c', entry=e, word=16, defs=['NN=%d' % n, 'MM=%d' % m], srcs=PP,
-                          unwind=72, timeout=900, checks=NOSO, backend=['cadical', 'kissat'], mem_gb=10, funcs=fn,
+                          unwind=72, timeout=900 if (e, n, m) in (('h_mul', 1, 1), ('h_mul', 2, 1)) else 2400, checks=NOSO, backend=['cadical', 'kissat'], mem_gb=10 if (e, n, m) in (('h_mul', 1, 1), ('h_mul', 2, 1)) else 24, funcs=fn,
+                          tiers=('quick', 'thorough') if (e, n, m) in (('h_mul', 1, 1), ('h_mul', 2, 1)) else ('thorough',),
                           bound='polynomials of %d and %d words of 16 bits, all values' % (n, m)))
     for n in (1, 2):
         obs.append(w16('redmont_sf_n%d' % n, 'h_redmont_sf', ['zzRedMont', 'wordNegInv'], 'n = %d words of 16 bits: every odd modulus with non-zero top word, every a < mod*B^n; SAFE == FAST, both < mod' % n, ['RED_N=%d' % n], **(dict(timeout=300) if n == 1 else HEAVY)))
